@@ -3,5 +3,7 @@ package main
 // one blank import per property package
 import (
 	_ "polycheck/props/c01"
+	_ "polycheck/props/c02"
+	_ "polycheck/props/c03"
 	_ "polycheck/props/c16"
 )
